@@ -83,6 +83,19 @@ def corruptions(rng, root):
                     dup.set("unused", "x")
             s.append(dup)
             yield f"duplicate-{kind}-{'changed' if changed else 'identical'}", r
+    # one type name declared twice, the second time as another kind of type (a duplicate all the same)
+    r = fresh()
+    ts_ = sets(r)[0]
+    ints = [e for e in ts_ if ET.QName(e).localname == "IntegerParameterType"]
+    if ints:
+        el = rng.choice(ints)
+        dup = copy.deepcopy(el)
+        dup.tag = q("BooleanParameterType") if rng.random() < 0.5 else q("FloatParameterType")
+        if rng.random() < 0.5:
+            ts_.insert(0, dup)
+        else:
+            ts_.append(dup)
+        yield "duplicate-type-other-kind", r
     # deletions
     for kind, idx in (("type", 0), ("param", 1), ("cont", 2)):
         r = fresh()
